@@ -367,7 +367,24 @@ pub fn json_random(out: &str, thorough: bool, seed: u64) {
         ("p4", CrystalFamily::Tetragonal, vec!["x,y", "-x,-y", "-y,x", "y,-x"]),
         ("p1", CrystalFamily::Monoclinic, vec!["x,y"]),
         ("pm", CrystalFamily::Orthorhombic, vec!["x,y", "-x,y"]),
+        // more copies per cell than any built-in group has
+        ("c2mm", CrystalFamily::Orthorhombic, vec!["x,y", "-x,-y", "-x,y", "x,-y", "x+1/2,y+1/2", "-x+1/2,-y+1/2", "-x+1/2,y+1/2", "x+1/2,-y+1/2"]),
+        ("p4mm", CrystalFamily::Tetragonal, vec!["x,y", "-x,-y", "-y,x", "y,-x", "-x,y", "x,-y", "y,x", "-y,-x"]),
     ];
+    // shapes far from unit size: what the library writes it must be able to read back
+    for (k, radius) in [5e4, 1e6, 4e3, 1e-6, 3.7e-3].iter().enumerate() {
+        let r = std::panic::catch_unwind(std::panic::AssertUnwindSafe(|| -> Result<(), String> {
+            let shape = LineShape::from_radial("sized", vec![*radius; 3 + k]).map_err(|e| e.to_string())?;
+            let wg = packing::wallpaper::get_wallpaper_group(packing::wallpaper::WallpaperGroups::p2).map_err(|e| e.to_string())?;
+            let st = PackedState::from_group(shape, &wg).map_err(|e| e.to_string())?;
+            roundtrip(&st, |s| s.cartesian_positions().collect())
+        }))
+        .unwrap_or(Err("panic".into()));
+        checked += 1;
+        if let Err(w) = r {
+            failures.push(json!({"what": format!("JSON round trip of a polygon of circumradius {:e}: {}", radius, w), "state": {"group": "p2", "values": [format!("{:e}", radius)]}}));
+        }
+    }
     let mut family_states = 0usize;
     for (name, fam, ops) in fams.iter() {
         let wg = WallpaperGroup { name, family: *fam, wyckoff_str: ops.clone() };
@@ -377,6 +394,11 @@ pub fn json_random(out: &str, thorough: bool, seed: u64) {
                     let st = PackedState::from_group(LineShape::polygon(4 + variant).unwrap(), &wg).map_err(|e| e.to_string())?;
                     roundtrip(&st, |s| s.cartesian_positions().collect())?;
                     svg_matches(&st.as_svg().to_string(), &st.cartesian_positions().collect::<Vec<_>>(), &serde_json::to_value(&st.cell).map_err(|e| e.to_string())?)?;
+                    // a user-built group may put the initial site on one of its mirror lines (copies
+                    // coincide, no score): such a state is written, read and drawn, not optimised
+                    if st.score().is_none() {
+                        return Ok(());
+                    }
                     let mut b = BuildOptimiser::default();
                     b.seed(variant as u64).steps(40).kt_start(0.);
                     let opt = b.build().optimise_state(st);
